@@ -349,7 +349,7 @@ func (l *lockstep) report(umask uint32, sr stepResult, shrinkIt bool) (suppresse
 // ---------- C01 ----------
 
 func c01Cfg(fsType string) gen.Cfg {
-	g := gen.Cfg{Root: "/w", Names: []string{"a", "b", "c"}, Depth: 3, Links: true, Owners: true, Temps: true, Chdir: true,
+	g := gen.Cfg{Root: "/w", Names: []string{"a", "ab", "c"}, Depth: 3, Links: true, Owners: true, Temps: true, Chdir: true,
 		Specials: true, AvoidRootOps: true}
 	if fsType == "MemFS" {
 		g.Symlinks = true
